@@ -159,7 +159,7 @@ Definition decode_request (bs : list N) : option request :=
 
 (* read_request: at most max_size bytes are read, then decoded *)
 Definition read_request (max_size : N) (bs : list N) : option request :=
-  decode_request (firstn (N.to_nat max_size) bs).
+  decode_request (firstn (N.to_nat (N.min max_size (N.of_nat (length bs)))) bs).
 
 Fixpoint listN_eqb (x y : list N) : bool :=
   match x, y with
